@@ -34,6 +34,7 @@ type Profile struct {
 	GovKinds    []string // which modules' parameters governance changes (default: all four)
 	PCheck      int      // percent of txs that are submitted to CheckTx only (mempool admission)
 	SlotRules   []int    // override of the storage-purchase slot rules
+	PBulk       int      // per-mille of txs that are repeated 100-260 times in a row (bulk populations)
 	LockedActors bool    // registrations are preferably made by accounts that hold locked eFUND
 	PSameKind   int      // percent of follow-up messages in a multi-message tx that repeat the first message's kind, actor and target
 	Crashes     bool     // blocks carry restart points (C01)
@@ -162,7 +163,7 @@ func GenGenesis(t *rapid.T, p *Profile) lab.GenesisCfg {
 		MinAccepts: uint64(uniRange(t, 1, nSign, "minAccepts")),
 		TimeLimit:  pick(t, []uint64{5, 6, 10, 30, 200}, "timeLimit"),
 		Denom:      "nund",
-		StartID:    pick(t, []uint64{1, 1, 7, 1 << 32}, "entStart"),
+		StartID:    pick(t, []uint64{1, 1, 7, 1 << 32, 254, 255, 65534, 1<<32 - 2}, "entStart"),
 	}
 	perm2 := rapid.Permutation(idx).Draw(t, "wlPerm")
 	ent.Whitelist = append([]int{}, perm2[:uniRange(t, 1, 4, "nWL")]...)
@@ -172,7 +173,7 @@ func GenGenesis(t *rapid.T, p *Profile) lab.GenesisCfg {
 			FeeRec:  pick(t, []uint64{10, 10, 1, 1000, 3}, tag+"FeeRec"),
 			FeePur:  pick(t, []uint64{5, 5, 1, 1000, 2}, tag+"FeePur"),
 			Denom:   "nund",
-			StartID: pick(t, []uint64{1, 1, 7, 1 << 32}, tag+"Start"),
+			StartID: pick(t, []uint64{1, 1, 7, 1 << 32, 253, 254, 255, 65534, 65535, 1<<32 - 2}, tag+"Start"),
 		}
 		if p.TinyLimits {
 			r.DefLimit = uint64(uniRange(t, 1, 4, tag+"Def"))
@@ -203,6 +204,10 @@ func GenGenesis(t *rapid.T, p *Profile) lab.GenesisCfg {
 func genRef(t *rapid.T, p *Profile) int {
 	if pct(t, p.PBadRef, "badRef") {
 		return pick(t, []int{-1, -2}, "badRefKind")
+	}
+	if oneIn(t, 8, "farRef") {
+		// far into a large population (the reference is taken modulo the population)
+		return pick(t, []int{50, 99, 100, 101, 127, 128, 199, 200, 255, 256, 1000003}, "farRefV")
 	}
 	return uniRange(t, 0, 7, "ref")
 }
@@ -362,7 +367,10 @@ func GenParams(t *rapid.T, p *Profile, kind string, nAcc int) *ParamsPatch {
 			case 3:
 				pp.Denom = pick(t, denomsInvalid, "badDenom")
 			case 4:
-				pp.SignersRaw = pick(t, []string{"", ",", "und1notanaddress", "und1qqqqqqqqqqqqqqqqqqqqqqqqqqqqqqqq5x8kpm,", ",und1qqqqqqqqqqqqqqqqqqqqqqqqqqqqqqqq5x8kpm", "cosmos1qqqqqqqqqqqqqqqqqqqqqqqqqqqqqqqqnrql8a"}, "rawSigners")
+				// {k} is replaced by the address of account k when the message is built
+				pp.SignersRaw = pick(t, []string{"", ",", "und1notanaddress", "und1qqqqqqqqqqqqqqqqqqqqqqqqqqqqqqqq5x8kpm,", ",und1qqqqqqqqqqqqqqqqqqqqqqqqqqqqqqqq5x8kpm", "cosmos1qqqqqqqqqqqqqqqqqqqqqqqqqqqqqqqqnrql8a",
+					"{0}, {1}", " {0}", "{0} ", "{0}\t,{1}", "{0},\n{1}", "{0},{1},", "{0};{1}", "{0},{0}x"}, "rawSigners")
+				pp.MinAccepts = 1
 			case 5:
 				pp.Signers = nil
 				pp.SignersRaw = ""
@@ -480,6 +488,9 @@ func GenScenario(t *rapid.T, p *Profile) *Scenario {
 			}
 			if p.GasSweep && oneIn(t, 8, "lowGas") {
 				tx.Gas = uint64(pick(t, []int{1, 1000, 20000, 40000, 55000, 60000, 70000, 80000, 90000, 100000, 120000, 150000}, "gas"))
+			}
+			if p.PBulk > 0 && !tx.Check && uni(t, 1000, "bulk") >= 1000-p.PBulk {
+				tx.Repeat = pick(t, []int{100, 101, 101, 130, 260}, "bulkN")
 			}
 			if pct(t, p.PFault, "fault") {
 				tx.Fault = uniRange(t, 1, 4, "faultKind")
